@@ -242,6 +242,17 @@ def check_window(trace, S, dt, cut):
         return [(f'jumps-collective-raise-{type(e).__name__}', str(e))], ('raise',)
     if c.max_steps != w:
         viols.append(('window-not-ceil-inverse-attempt-frequency', f'max_steps={c.max_steps} expected={w} nu={nu} dt={dt}'))
+    # a result obtained earlier must not change when another cut-off is asked for afterwards
+    snap = (c.max_dist, [frozenset((row_of(a), row_of(b))) for a, b in c.collective], c.n_solo_jumps)
+    try:
+        c_other = j.collective(max_dist=0.05)
+        now = (c.max_dist, [frozenset((row_of(a), row_of(b))) for a, b in c.collective], c.n_solo_jumps)
+        if now != snap:
+            viols.append(('earlier-collective-result-changed-by-a-later-call', f'{snap[0]} -> {now[0]}, pairs {len(snap[1])} -> {len(now[1])}'))
+        if len(c_other.collective) > len(snap[1]):
+            viols.append(('smaller-cut-off-gives-more-pairs', ''))
+    except Exception as e:  # noqa: BLE001
+        viols.append((f'second-collective-raise-{type(e).__name__}', str(e)))
     D = geom.dist_matrix(SITE_FRAC[:3], SITE_FRAC[:3], M)
     rows = set(impl.jump_rows(j.data))
     exp = ref_pairs(rows, w, cut, D)
